@@ -40,14 +40,16 @@ def oracle(desc, op, exact):
     if inexact_solver:
         tol = 1e-3
     # --- as_matrix (specialised or inherited, whatever the class provides)
-    A = np.asarray(P.lib('as_matrix', op.as_matrix), dtype=np.float64)
+    A = np.asarray(P.lib('as_matrix', op.as_matrix))
+    A = A.astype(np.complex128 if np.iscomplexobj(A) else np.float64)
     if A.shape != M.shape:
         probs.append(('as_matrix-shape', f'as_matrix() has shape {A.shape}, the probed map {M.shape}'))
     elif not P.close(A, M, tol or 1e-12):
         probs.append(('as_matrix-values', f'max |as_matrix - probe| = {P.maxdiff(A, M):.4g}; as_matrix={P.mat_summary(A, 48)} probe={P.mat_summary(M, 48)}'))
     single = desc['form'] == 'single'
     if single and type(op).as_matrix is not AbstractLinearOperator.as_matrix:
-        G = np.asarray(P.lib('generic as_matrix', AbstractLinearOperator.as_matrix, op), dtype=np.float64)
+        G = np.asarray(P.lib('generic as_matrix', AbstractLinearOperator.as_matrix, op))
+        G = G.astype(np.complex128 if np.iscomplexobj(G) else np.float64)
         if G.shape != M.shape or not P.close(G, M, tol or 1e-12):
             probs.append(('generic-as_matrix', f'generic as_matrix differs from the probe by {P.maxdiff(G, M):.4g}'))
     # --- linearity grid
